@@ -26,8 +26,8 @@ type Run struct {
 	Failures []Failure
 	Samples  []string
 	Lines    int
-	Cases    int // distinct generated cases (traces/histories)
-	Nontriv  int // cases that exercised a non-default branch (stream specific rule)
+	Cases    int            // distinct generated cases (traces/histories)
+	Nontriv  int            // cases that exercised a non-default branch (stream specific rule)
 	Known    map[string]int // known-finding signatures observed
 }
 
@@ -44,7 +44,7 @@ func (r *Run) Emit(format string, args ...any) {
 	r.w.WriteByte('\n')
 	r.Lines++
 }
-func (r *Run) Count(k string) { r.Counters[k]++ }
+func (r *Run) Count(k string)         { r.Counters[k]++ }
 func (r *Run) CountN(k string, n int) { r.Counters[k] += n }
 func (r *Run) Fail(prop, what, input string) {
 	if len(input) > 4000 {
